@@ -43,6 +43,9 @@ func cmdRace(args []string) {
 		"string-length(//d)", "normalize-space(//d)", "translate(//c, 'x', 'y')", "floor(//b)", "ceiling(//b)", "round(//b) = 1",
 		"number(//b) + 1", "not(//zz)", "local-name(//b)", "namespace-uri(//b)", "//b[last()]", "//*[position() = 2]",
 		"//a/b[2]", "//e/*[last()]/text()", "count(//b | //c)", "//b[c][1]", "(//b | //c)[2]", "concat(//b, '-', //c, '-', //d)",
+		"floor(//b + //c)", "round(//b * 2) = 2", "string(-//b)", "number(//b + 1) > 1", "ceiling(sum(//e/*) div 2)",
+		"string-length(concat(//b, //c)) + 1", "not(//b + 1 = 2)", "//*[floor(b + 1) = 2]", "matches(string(//b), 'a|ab')",
+		"replace(string(//c), 'x|xy', 'z')",
 		"//*[@a and (b or c)]", "//b[. = //e/b]", "sum(//e/*) div count(//e/*)", "string(//e/c) = '3'",
 	}
 	type mism struct {
